@@ -159,7 +159,20 @@ func genShelley(rt *rapid.T) shelleyAddr {
 		typ: shelleyTypes[rapid.IntRange(0, len(shelleyTypes)-1).Draw(rt, "type")],
 		net: uint8(rapid.IntRange(0, 1).Draw(rt, "net")),
 	}
-	h := func(l string) []byte { return rapid.SliceOfN(rapid.Byte(), 28, 28).Draw(rt, l) }
+	h := func(l string) []byte {
+		// special hash values by construction: sentinel-looking hashes are ordinary hashes
+		switch rapid.IntRange(0, 11).Draw(rt, l+"Kind") {
+		case 0:
+			return make([]byte, 28)
+		case 1:
+			return bytes.Repeat([]byte{0xff}, 28)
+		case 2:
+			b := make([]byte, 28)
+			b[rapid.IntRange(0, 27).Draw(rt, l+"One")] = byte(1 << rapid.IntRange(0, 7).Draw(rt, l+"Bit"))
+			return b
+		}
+		return rapid.SliceOfN(rapid.Byte(), 28, 28).Draw(rt, l)
+	}
 	a.raw = []byte{a.typ<<4 | a.net}
 	if a.typ < 8 {
 		a.pay = h("pay")
@@ -272,7 +285,13 @@ func TestC05(t *testing.T) {
 			}
 		}
 		if cred, ok := addr.StakeCredential(); ok != (a.stake != nil) || (ok && !bytes.Equal(cred.Credential.Bytes(), a.stake)) {
-			fail(fmt.Sprintf("shelley:type=%d:stake-credential", a.typ), "StakeCredential() disagrees with the staking part")
+			fail(fmt.Sprintf("shelley:type=%d:stake-credential", a.typ), fmt.Sprintf("StakeCredential() = (%x, %v) disagrees with the staking part %x", cred.Credential.Bytes(), ok, a.stake))
+		} else if ok {
+			// staking part is a script hash for the odd base types 2,3 and for reward type 15
+			wantScript := a.typ == 2 || a.typ == 3 || a.typ == 15
+			if (cred.CredType == common.CredentialTypeScriptHash) != wantScript {
+				fail(fmt.Sprintf("shelley:type=%d:stake-credential-kind", a.typ), fmt.Sprintf("StakeCredential() kind %d, header says script=%v", cred.CredType, wantScript))
+			}
 		}
 		// text form
 		hrp := wantHRP(a.typ, a.net)
